@@ -121,7 +121,12 @@ private theorem cartAddr_iff (a : Nat) : Cart.cartAddr a = true ↔ (a < 0x8000 
   unfold Cart.cartAddr
   simp only [Bool.or_eq_true, Bool.and_eq_true, decide_eq_true_eq]
 
-private theorem writeH_parts (h : H) (m : Machine) (a v : Nat) (hr : inRange false h a = true) :
+private theorem ignore_not_reg (a : Nat) (h : route expectedWriteArms a = .ignore) :
+    a ≠ 0xFF00 ∧ a ≠ 0xFF04 ∧ a ≠ 0xFF05 ∧ a ≠ 0xFF06 ∧ a ≠ 0xFF07 := by
+  refine ⟨?_, ?_, ?_, ?_, ?_⟩ <;> (intro e; subst e; revert h; decide)
+
+private theorem writeH_parts (h : H) (m : Machine) (a v : Nat) (hh : route expectedWriteArms a = h)
+    (hr : inRange false h a = true) :
     ((writeH h m a v).getD m).timer = timerAfterWrite m.timer a v ∧
     ((writeH h m a v).getD m).joyp = joypAfterWrite m.joyp a v ∧
     ((writeH h m a v).getD m).cart = cartAfterWrite m.cart a v := by
@@ -148,6 +153,14 @@ private theorem writeH_parts (h : H) (m : Machine) (a v : Nat) (hr : inRange fal
   case tma => subst hr; exact ⟨rfl, rfl, (hcart (by omega)).symm⟩
   case tac => subst hr; exact ⟨rfl, rfl, (hcart (by omega)).symm⟩
   case joyp => subst hr; exact ⟨rfl, rfl, (hcart (by omega)).symm⟩
+  case ignore =>
+    obtain ⟨n0, n4, n5, n6, n7⟩ := ignore_not_reg a hh
+    have e1 : timerAfterWrite m.timer a v = m.timer := by
+      unfold timerAfterWrite
+      rw [if_neg n4, if_neg n5, if_neg n6, if_neg n7]
+    have e2 : joypAfterWrite m.joyp a v = m.joyp := by unfold joypAfterWrite; rw [if_neg n0]
+    rw [e1, e2, hcart (by omega)]
+    exact ⟨rfl, rfl, rfl⟩
   all_goals first
     | (exfalso; simp at hr; done)
     | (have e1 : timerAfterWrite m.timer a v = m.timer := by
@@ -168,7 +181,7 @@ private theorem board_write_parts (b : Board) (a v : Nat) (ha : a < 65536) :
   rw [board_write_m b a v ha]
   cases hs : soundAddr a
   · simp only [Bool.false_eq_true, if_false]
-    exact writeH_parts _ b.m a v (range_write ha)
+    exact writeH_parts _ b.m a v rfl (range_write ha)
   · have := sound_range hs
     simp only [if_true]
     refine ⟨?_, ?_, ?_⟩
@@ -284,8 +297,9 @@ theorem end_cycle_shape (w : Whole) (h : w.cycle.stopped = false) :
   cases hd : endMachineCycle Serial.genReadArms b0.ppuStep.m with
   | none => rw [hd] at h3; cases h3
   | some m2 =>
-    rw [hd] at h3 ⊢
+    rw [hd] at h3
     have h1 : b0.ppuStep.crashed = false := h3
+    show ∃ r o, _ ∧ timerTick m2 = _
     obtain ⟨o, rfl⟩ := endMachineCycle_shape _ _ _ hd
     rw [whole_step_ppu] at h1 hd ⊢
     cases hr : Render.tick (sceneOf b0.m) (syncPix b0.m.ppu b0.pix) with
